@@ -7,6 +7,7 @@ import (
 	"os"
 	"path/filepath"
 	"runtime"
+	"runtime/pprof"
 	"strconv"
 	"strings"
 	"time"
@@ -89,7 +90,15 @@ func cmdRun(args []string) int {
 	twin := fs.Bool("twin", false, "vacuity twin")
 	steps := fs.Int64("steps", 0, "max steps per path")
 	extra := fs.String("extra", "", "comma separated extra packages to load")
+	cpuprof := fs.String("cpuprofile", "", "write a CPU profile of the exploration here")
 	fs.Parse(args)
+	if *cpuprof != "" {
+		f, err := os.Create(*cpuprof)
+		if err == nil {
+			pprof.StartCPUProfile(f)
+			defer pprof.StopCPUProfile()
+		}
+	}
 
 	cfg := defaultConfig()
 	cfg.Workers = *workers
